@@ -125,8 +125,9 @@ fn gen_m2(ch: &mut Ch, thorough: bool) -> Option<Case> {
     }
     // attribute entry also with every trait in its own stacked `#[derive_ex(..)]` attribute
     // .. or generated by a macro_rules! macro with the helper attributes passed in as meta fragments
-    let how = ch.pick(3);
-    if how == 1 && !(derived.len() >= 2 && entry == Entry::Attr) || how == 2 && combo.is_plain() {
+    // .. or stacked with the later lists written with the crate-qualified attribute path (separate invocations for rustc)
+    let how = ch.pick(4);
+    if (how == 1 || how == 3) && !(derived.len() >= 2 && entry == Entry::Attr) || how == 2 && combo.is_plain() || how == 3 && combo.is_plain() {
         return None;
     }
     let mut ts = container_spec(container, ctx, FieldSpec::cfg(combo, form_for(ctx)), KeyStyle::Distinct);
@@ -134,6 +135,8 @@ fn gen_m2(ch: &mut Ch, thorough: bool) -> Option<Case> {
         ts.shared_arg = Some(STACKED);
     } else if how == 2 {
         ts.shared_arg = Some(VIA_MACRO);
+    } else if how == 3 {
+        ts.shared_arg = Some(STACKED_QUALIFIED);
     }
     Some(Case { gen: "m2", vector: ch.vector(), ts, derived, entry })
 }
